@@ -4,6 +4,7 @@ import uuid
 from collections import OrderedDict
 
 import stix2
+from stix2.exceptions import STIXError
 from stix2 import base as sbase
 from stix2.base import _choose_one_hash, _make_json_serializable
 from stix2.v21 import observables as ob21
@@ -338,3 +339,96 @@ def run_custom_case(has_a, has_b, has_c, falsy, via=0, has_e=False, has_d=False)
     finally:
         registry.STIX2_OBJ_MAPS["2.1"]["observables"].clear()
         registry.STIX2_OBJ_MAPS["2.1"]["observables"].update(saved)
+
+
+# ---- contributing timestamps: the id is hashed over the text THIS object writes (its property's precision), whatever other objects of the process
+# wrote for the same instant before; and contributing texts that differ give different ids
+INSTANTS = ["2020-01-01T00:00:30Z", "2020-01-01T00:00:30.5Z", "2020-01-01T00:00:30.120Z", "2020-01-01T00:00:30.000001Z"]
+
+
+def timestamp_contributors(ii: int, order: int, form: int) -> bool:
+    """
+    pre: 0 <= ii < len(INSTANTS) and 0 <= order <= 2 and 0 <= form <= 1
+    post: _
+    """
+    ii, order, form = pick(ii, len(INSTANTS)), pick(order, 3), pick(form, 2)
+    with Native():
+        ok = run_ts_contrib_case(ii, order, form)
+    V.reached()
+    return ok
+
+
+def run_ts_contrib_case(ii, order, form):
+    from stix2 import registry
+    import datetime as dt
+    saved = (dict(registry.STIX2_OBJ_MAPS["2.1"]["observables"]), dict(registry.STIX2_OBJ_MAPS["2.1"]["extensions"]))
+    try:
+        @stix2.v21.CustomObservable("x-ts-ms", [("seen", stix2.properties.TimestampProperty(precision="millisecond")), ("n", stix2.properties.IntegerProperty())], ["seen"])
+        class Ms(object):
+            pass
+
+        @stix2.v21.CustomObservable("x-ts-min", [("seen", stix2.properties.TimestampProperty(precision="millisecond", precision_constraint="min"))], ["seen"])
+        class Min(object):
+            pass
+
+        @stix2.v21.CustomObservable("x-ts-any", [("seen", stix2.properties.TimestampProperty())], ["seen"])
+        class Any(object):
+            pass
+        text = INSTANTS[ii]
+        value = text if form == 0 else stix2.utils.parse_into_datetime(text)
+        makers = [lambda: Ms(seen=value), lambda: Min(seen=value), lambda: Any(seen=value),
+                  lambda: stix2.v21.NetworkTraffic(start=value, protocols=["tcp"], src_ref="ipv4-addr--" + gen.UU)]
+        makers = makers[order:] + makers[:order]                     # which object the process builds first
+        for _round in range(2):
+            for mk in makers:
+                o = mk()
+                j = json.loads(o.serialize())
+                contrib = {k: j[k] for k in (("seen",) if "seen" in j else ("start", "src_ref", "protocols")) if k in j}
+                if o.id != "%s--%s" % (j["type"], uuid.uuid5(NS, indep_canon(contrib))):
+                    return False
+                again = stix2.parse({k: v for k, v in j.items() if k != "id"}, version="2.1")
+                if again.id != o.id:
+                    return False
+        return True
+    finally:
+        for m, sv in zip(("observables", "extensions"), saved):
+            registry.STIX2_OBJ_MAPS["2.1"][m].clear()
+            registry.STIX2_OBJ_MAPS["2.1"][m].update(sv)
+
+
+NAMES = ["evil?x", "evil\ufffdx", "evil\ud800x", "evil\udc00x", "evil\ud800\udc00x", "evil\U00010000x", "evil\\ud800x", "Evil?x", "evil?x ", "evil\u0000x", "evil x"]
+
+
+def distinct_values_distinct_ids(i: int, j: int, cls: int) -> bool:
+    """
+    pre: 0 <= i < len(NAMES) and 0 <= j < len(NAMES) and 0 <= cls <= 2
+    post: _
+    """
+    i, j, cls = pick(i, len(NAMES)), pick(j, len(NAMES)), pick(cls, 3)
+    with Native():
+        ok = run_distinct_case(i, j, cls)
+    V.reached()
+    return ok
+
+
+def run_distinct_case(i, j, cls):
+    """two contributing texts (incl. unpaired surrogates, their replacement characters and escaped spellings): a text the library accepts gets the
+    UUIDv5 of its own canonical JSON; different texts never share an id; a text that has no UTF-8 form may be refused (RFC 8785 3.2.2.2)"""
+    mk = [lambda v: stix2.v21.Mutex(name=v), lambda v: stix2.v21.File(name=v), lambda v: stix2.v21.UserAccount(user_id=v)][cls]
+    ids = []
+    for v in (NAMES[i], NAMES[j]):
+        try:
+            o = mk(v)
+        except (STIXError, ValueError, TypeError):
+            ids.append(None)
+            continue
+        try:
+            want = str(uuid.uuid5(NS, indep_canon({("user_id" if cls == 2 else "name"): v})))
+        except UnicodeEncodeError:
+            want = None                                   # no independent answer for such a text: only distinctness is checked
+        if want is not None and o.id[-36:] != want:
+            return False
+        ids.append(o.id)
+    if NAMES[i] != NAMES[j] and ids[0] is not None and ids[0] == ids[1]:
+        return False
+    return True
